@@ -3,7 +3,6 @@
  * Reads a script (one command per line) from stdin, drives the real library through its public
  * API and its non-static internal entry points, prints canonical observation lines to stdout.
  * No source change in /repo is needed: usleep/time/syslog are interposed at link time.
- * `time n` sets the virtual clock and then runs the library's expiry pass (see below); `clock n` / `expire` do the halves.
  */
 #define _GNU_SOURCE
 #include <stdio.h>
@@ -31,17 +30,7 @@ static volatile long vclock = 1000000;
 static volatile int fast_sleep = 1;
 time_t time(time_t *t) { time_t v = (time_t)vclock; if (t) *t = v; return v; }
 
-/* The heartbeat thread (the only caller of usleep(100000)) runs the library's expiry pass after every sleep.
- * It is parked inside its sleep by default: the pass then happens only where a script asks for it (`time n`
- * runs it synchronously, `hbtime n` lets the heartbeat thread itself run it), which keeps the order in which
- * nodes register with stalled ancestors - hence the order of releases - a function of the script. */
-static volatile int hb_park = 1;
-static volatile unsigned long hb_cycles;
 int usleep(useconds_t us) {
-	if (us == 100000) {
-		__atomic_add_fetch(&hb_cycles, 1, __ATOMIC_SEQ_CST);
-		while (hb_park && bidib_running) { struct timespec ts = {0, 200000}; nanosleep(&ts, NULL); }
-	}
 	if (fast_sleep) { struct timespec ts = {0, 20000}; (void)us; nanosleep(&ts, NULL); }
 	else { struct timespec ts = {us / 1000000, (us % 1000000) * 1000}; nanosleep(&ts, NULL); }
 	return 0;
@@ -55,11 +44,6 @@ void syslog(int p, const char *f, ...) {
 void vsyslog(int p, const char *f, va_list ap) { (void)p; (void)f; (void)ap; }
 void openlog(const char *i, int o, int f) { (void)i; (void)o; (void)f; }
 void closelog(void) {}
-
-/* the expiry pass of the heartbeat thread (bidib_node_state_expire_responses, C03 repair): `time n` runs it
- * synchronously after moving the clock, so that what expires does so before the next command. Weak: a tree
- * without the function still links (then `time` only moves the clock). */
-extern void bidib_node_state_expire_responses(void) __attribute__((weak));
 
 /* ------------------------------------------------------------------ output log */
 static pthread_mutex_t out_mx = PTHREAD_MUTEX_INITIALIZER;
@@ -183,20 +167,7 @@ int main(int argc, char **argv) {
 		}
 		else if (!strcmp(cmd, "seqon")) { bidib_seq_num_enabled = atoi(a[0]) != 0; }
 		else if (!strcmp(cmd, "reset_nodes")) { bidib_node_state_table_reset(true); }
-		else if (!strcmp(cmd, "time") || !strcmp(cmd, "clock") || !strcmp(cmd, "expire")) {
-			/* clock n : the virtual clock only; expire : the library's expiry pass only; time n : both */
-			if (cmd[0] != 'e') vclock = atol(a[0]);
-			if (cmd[0] != 'c' && bidib_node_state_expire_responses && bidib_running) bidib_node_state_expire_responses();
-		}
-		else if (!strcmp(cmd, "hbtime")) {
-			/* hbtime n : move the clock and let the heartbeat thread complete two sleep cycles (at least one whole
-			 * pass of its loop body after the clock change), then park it again */
-			unsigned long base = __atomic_load_n(&hb_cycles, __ATOMIC_SEQ_CST);
-			vclock = atol(a[0]); hb_park = 0;
-			for (int i = 0; i < 200000 && __atomic_load_n(&hb_cycles, __ATOMIC_SEQ_CST) < base + 2; i++) { struct timespec ts = {0, 50000}; nanosleep(&ts, NULL); }
-			hb_park = 1;
-			if (__atomic_load_n(&hb_cycles, __ATOMIC_SEQ_CST) < base + 2) outf("hb-timeout\n");
-		}
+		else if (!strcmp(cmd, "time")) { vclock = atol(a[0]); }
 		else if (!strcmp(cmd, "rx")) {
 			int n = parse_hex(a[0], bytes, sizeof bytes); rx_push(bytes, n);
 			if (rx_quiesce(20000)) outf("rx-timeout\n");
